@@ -1,10 +1,10 @@
-(* Obligation C18/event_true_time.  Statement as printed by Coq from Inferno.C18.DelayAdjProofs; proof by reference.
+(* Obligation C18/event_true_time.  Statement as printed by Coq from Inferno.C18.EventProofs; proof by reference.
    This file contains nothing else, so the statement cannot be weakened quietly. *)
 From Coq Require Import List ZArith Bool Reals Lra Lia.
-From Inferno Require Import Base.Num Base.NumR Gen.Stdkernels C18.DelayAdj C18.DelayAdjProofs.
+From Inferno Require Import Base.Num Base.NumR C18.DelayAdj C18.EventProofs.
 Import ListNotations.
 Open Scope R_scope.
 Theorem event_true_time : forall (dt : R) (h : list bool) (j : nat),
   is_last h j -> ev_peek dt h = Some (INR (length h - 1) * dt - INR j * dt).
-Proof. exact (@Inferno.C18.DelayAdjProofs.event_true_time). Qed.
+Proof. exact (@Inferno.C18.EventProofs.event_true_time). Qed.
 Print Assumptions event_true_time.
